@@ -195,3 +195,71 @@ Theorem C14_schedule_example :
   sep_ok 300 (fetches (run false 300 sched_race (init 2))) = false.
 Proof. exact demo_run. Qed.
 Print Assumptions C14_schedule_example.
+
+(* ---------------------------------------------------------------------------------------
+   Part C: EngineContext.session - the lazily created requests.Session shared by the workers
+   --------------------------------------------------------------------------------------- *)
+
+(* for every network configuration, every number n of readers (worker threads asking for
+   ctx.session / ctx.transport_kwargs) and EVERY schedule of their steps (test of the cache,
+   construction, each attribute assignment, publication), with no session passed explicitly:
+   every session a reader is handed, and every session a request is later sent through, carries
+   the configured verify / auth / headers / cert / proxies *)
+Theorem C14_shared_session_is_configured_for_every_reader : forall c dflt n sched t o x,
+  In (t, o, x) (gots (s_run true c dflt sched (s_init n None))) \/
+  In (t, o, x) (sends (s_run true c dflt sched (s_init n None))) ->
+  s_verify x = n_verify c /\ s_auth x = n_auth c /\ s_headers x = session_headers dflt (n_headers c) /\
+  s_cert x = n_cert c /\ s_proxies x = match n_proxy c with Some p => [(K_ALL, p)] | None => [] end.
+Proof. exact session_configured_fields. Qed.
+Print Assumptions C14_shared_session_is_configured_for_every_reader.
+
+(* hence every request prepared through such a session is the one Part A reasons about
+   (wire_headers) and carries the configured Authorization *)
+Theorem C14_shared_session_requests_carry_auth : forall c dflt n sched t o x a final,
+  In (t, o, x) (gots (s_run true c dflt sched (s_init n None))) \/
+  In (t, o, x) (sends (s_run true c dflt sched (s_init n None))) ->
+  n_auth c = Some a ->
+  request_headers x final = wire_headers dflt (n_headers c) final (Some a) /\
+  ci_get AUTHORIZATION (request_headers x final) = Some a.
+Proof. exact session_requests_carry_auth. Qed.
+Print Assumptions C14_shared_session_requests_carry_auth.
+
+(* the published object is complete at every moment of every schedule *)
+Theorem C14_published_session_is_complete : forall c dflt n sched o,
+  cached (s_run true c dflt sched (s_init n None)) = Some o ->
+  nth_error (heap (s_run true c dflt sched (s_init n None))) o = Some (configured c dflt).
+Proof. exact session_published_complete. Qed.
+Print Assumptions C14_published_session_is_complete.
+
+(* a session passed to EngineContext(session=...) is handed out as it is, never reconfigured *)
+Theorem C14_explicit_session_is_handed_out_unchanged : forall c dflt n x0 sched t o x,
+  In (t, o, x) (gots (s_run true c dflt sched (s_init n (Some x0)))) \/
+  In (t, o, x) (sends (s_run true c dflt sched (s_init n (Some x0)))) -> x = x0.
+Proof. exact session_explicit_unchanged. Qed.
+Print Assumptions C14_explicit_session_is_handed_out_unchanged.
+
+(* regression witness: in the sentinel order (assign the new object to ctx._session first,
+   configure it in place) a second reader obtains the bare object and sends a request without
+   the configured Authorization *)
+Theorem C14_shared_session_is_configured_refuted_publish_first : exists c dflt n sched t o x a,
+  In (t, o, x) (sends (s_run false c dflt sched (s_init n None))) /\
+  n_auth c = Some a /\ s_auth x = None /\ ci_get AUTHORIZATION (request_headers x HNone) = None.
+Proof.
+  exists c_sess, d_sess, 2%nat, sched_publish_first, 1%nat, 0%nat, (bare d_sess), [66;97;115;105;99;32;100;88;65;61].
+  exact publish_first_refuted.
+Qed.
+Print Assumptions C14_shared_session_is_configured_refuted_publish_first.
+
+(* non-vacuity: two readers both miss the cache and both build a session, the later publication
+   wins, a third read returns the published object; requests go through all of them *)
+Theorem C14_session_schedule_example :
+  map (fun e => (fst (fst e), snd (fst e))) (rev (gots (s_run true c_sess d_sess sched_two_builders (s_init 2 None))))
+    = [(0, 0); (1, 1); (0, 1)]%nat /\
+  map (fun e => (fst (fst e), snd (fst e))) (rev (sends (s_run true c_sess d_sess sched_two_builders (s_init 2 None))))
+    = [(0, 0); (0, 1); (1, 1)]%nat /\
+  cached (s_run true c_sess d_sess sched_two_builders (s_init 2 None)) = Some 1%nat /\
+  forallb (auth_ok c_sess) (sends (s_run true c_sess d_sess sched_two_builders (s_init 2 None))) = true /\
+  forallb (auth_ok c_sess) (sends (s_run true c_sess d_sess sched_publish_first (s_init 2 None))) = true /\
+  forallb (auth_ok c_sess) (sends (s_run false c_sess d_sess sched_publish_first (s_init 2 None))) = false.
+Proof. exact two_builders_run. Qed.
+Print Assumptions C14_session_schedule_example.
